@@ -1,4 +1,4 @@
-(* C04, tie to the source by translation, for merge, zip and combine_latest: the method bodies of the observers handed to
+(* C04, tie to the source by translation, for all eight two-input operators: the method bodies of the observers handed to
    the two inputs - impl blocks inside the macros that produce the local and the thread-safe form included - parsed from
    /repo/src on this run (Gen/Bodies.v, translator T5) and run by the evaluator of Model/RustSem.v compute exactly what the
    machines of Model/Ops2.v compute.  The shared cell (MutRc / MutArc) is modelled as its content: both observers hold the
@@ -9,18 +9,17 @@ From RxProofs Require BodyTie2.
 
 (* One call (next, error or complete) on the observer of either input, in any shared state: the content of the cell
    afterwards and the notifications sent on are the machine's. *)
-Theorem C04_source_step : forall o : op2, tied2 o = true -> step2_agrees bodies o.
+Theorem C04_source_step : forall o : op2, step2_agrees bodies o.
 Proof. exact BodyTie2.step2_all. Qed.
 
 (* Any merged timeline of calls on the two observers (each observer consumed by its own terminal call). *)
 Theorem C04_source_runs_like_the_machine :
-  forall o : op2, tied2 o = true ->
-  forall (tl : timeline) (s : st2) (la lb : bool), BodyTie2.src_run2 o s la lb tl = Some (run2 o s la lb tl).
+  forall (o : op2) (tl : timeline) (s : st2) (la lb : bool), BodyTie2.src_run2 o s la lb tl = Some (run2 o s la lb tl).
 Proof. exact BodyTie2.src_run2_agrees. Qed.
 
-Check C04_source_step : forall o, tied2 o = true -> step2_agrees bodies o.
+Check C04_source_step : forall o, step2_agrees bodies o.
 Check C04_source_runs_like_the_machine :
-  forall o, tied2 o = true -> forall tl s la lb, BodyTie2.src_run2 o s la lb tl = Some (run2 o s la lb tl).
+  forall o tl s la lb, BodyTie2.src_run2 o s la lb tl = Some (run2 o s la lb tl).
 
 Print Assumptions C04_source_step.
 Print Assumptions C04_source_runs_like_the_machine.
@@ -32,6 +31,9 @@ Example C04_example_source_zip :
   = Some [Next (VP (VZ 1) (VZ 7)); Next (VP (VZ 2) (VZ 8)); Done].
 Proof. vm_compute. reflexivity. Qed.
 
-Example C04_example_tied : map tied2 [OMerge; OZip; OCombineLatest (fun a _ => a); OWithLatestFrom; OTakeUntil; OSkipUntil; OSample; OBuffer]
-  = [true; true; true; false; false; false; false; false].
-Proof. reflexivity. Qed.
+(* ... and buffer(notifier): the notifier releases what was gathered, the completion flushes the rest *)
+Example C04_example_source_buffer :
+  BodyTie2.src_run2 OBuffer (init2 OBuffer) true true
+    [(A, Next (VZ 1)); (A, Next (VZ 2)); (B, Next VU); (B, Next VU); (A, Next (VZ 3)); (A, Done)]
+  = Some [Next (VL [VZ 1; VZ 2]); Next (VL [VZ 3]); Done].
+Proof. vm_compute. reflexivity. Qed.
